@@ -44,6 +44,13 @@ CLAIMED = {
                   "uninterpreted function; Property.create_new and the Property.values getter enter as assumed summaries; h5py "
                   "accepts type-checked values; dict-style section access and persistence across reopen are not covered.",
              ref="7 C10"),
+ "C17": dict(text="Delegation only: deductive proof that File.flush() reaches h5py's flush on every path, that File.close() flushes "
+                  "or closes (which flushes) on every path, and that the file-access property list nixio opens files with is the "
+                  "library default (the setting for which the durability assumption is stated). The crash clause itself - data "
+                  "handed over by H5Fflush survives SIGKILL - is a fact about libhdf5 and the OS that no contract on nixio code can "
+                  "decide; it is an assumption, not a proved clause.",
+             note="Assumed, never proved: h5py.File.flush = H5Fflush(H5F_SCOPE_GLOBAL) hands all dirty metadata and chunks to the "
+                  "OS; data handed to the OS survives SIGKILL; gc.collect does not raise.", ref="7 C17"),
 }
 NA_REASON = "check not built yet in this round (design in DESIGN.md section 7); will be claimed once its contracts discharge"
 checks, na = [], []
